@@ -224,26 +224,7 @@ func ruleC02Attach(p *Program, r *Run) {
 
 	// canAttachSort's false-set, read from its type switch.
 	r.Saw(FuncName(pkg, canFd))
-	falseSet := map[string]bool{}
-	for _, ts := range findTypeSwitches(info, canFd.Body, nil) {
-		for _, cc := range ts.Clauses {
-			retFalse := false
-			for _, s := range cc.Body {
-				if ret, ok := s.(*ast.ReturnStmt); ok && len(ret.Results) == 1 {
-					if v := constOf(info, ret.Results[0]); v != nil && v.String() == "false" {
-						retFalse = true
-					}
-				}
-			}
-			if retFalse {
-				for _, t := range ts.Types[cc] {
-					if t != nil {
-						falseSet[TypeStr(t)] = true
-					}
-				}
-			}
-		}
-	}
+	falseSet := p.canAttachRefuses()
 	for _, t := range c.needOut {
 		r.Check(falseSet[t], "C02/canattach", "pql.canAttachSort refuses "+t, p.Pos(canFd.Pos()),
 			"operator that renames the columns in scope is in the refuse set",
@@ -392,4 +373,44 @@ func litField(info *types.Info, cl *ast.CompositeLit, name string) ast.Expr {
 		}
 	}
 	return nil
+}
+
+// canAttachRefuses: the operator types for which canAttachSort returns false, read from its type switch.
+func (p *Program) canAttachRefuses() map[string]bool {
+	pkg := p.PQL
+	info := pkg.TypesInfo
+	canFd := p.MustFunc(pkg, "canAttachSort")
+	falseSet := map[string]bool{}
+	for _, ts := range findTypeSwitches(info, canFd.Body, nil) {
+		for _, cc := range ts.Clauses {
+			retFalse := false
+			for _, s := range cc.Body {
+				if ret, ok := s.(*ast.ReturnStmt); ok && len(ret.Results) == 1 {
+					if v := constOf(info, ret.Results[0]); v != nil && v.String() == "false" {
+						retFalse = true
+					}
+				}
+			}
+			if retFalse {
+				for _, t := range ts.Types[cc] {
+					if t != nil {
+						falseSet[TypeStr(t)] = true
+					}
+				}
+			}
+		}
+	}
+	return falseSet
+}
+
+// ruleC03AsName: the query named by `as T` is the pipeline up to that point and nothing more. A sort or row limit
+// written after `as` must therefore not be merged into the named query (a later join reading T on its right-hand
+// side would see the limited rows): canAttachSort refuses the as operator.
+func ruleC03AsName(p *Program, r *Run) {
+	canFd := p.MustFunc(p.PQL, "canAttachSort")
+	r.Saw(FuncName(p.PQL, canFd))
+	r.Check(p.canAttachRefuses()["*parser.AsOperator"], "C03/as-name", "pql.canAttachSort refuses *parser.AsOperator", p.Pos(canFd.Pos()),
+		"a sort or row limit after `as T` gets a query of its own; T names the rows before it",
+		"*parser.AsOperator is not refused by canAttachSort: `... | as T | take 1 | join (T | ...) on k` merges the LIMIT into the query named T, so the right-hand side of the join reads the limited rows instead of everything before `as`")
+	r.Floor("C03/as-name", 1)
 }
